@@ -162,6 +162,35 @@ let run_validate t : string * string =
   let s = if spec = 0 then "-" else Printf.sprintf "acc=%d" (if acc && tacc then 1 else 0) in
   (m, s)
 
+
+(* ---------- C19/C05/C08: header parser ---------- *)
+let mime_dec (s : n list) : n list option =
+  let a = ask ("mime " ^ hex s) in if a = "err" then None else Some (unhex a)
+let show_kind_err k = match k with
+  | KSyntax -> "syn" | KEOH -> "eoh" | KMarker -> "mrk" | KRead -> "read" | KFuel -> "FUEL" | k -> show_kind k
+let show_parse total r =
+  match r with
+  | Ok ((fs, rest), fnd) ->
+    Printf.sprintf "nil;n=%d;f=%s;c=%d" (List.length fnd) (hex (m_write fs)) (total - List.length rest.sdata)
+  | Err ((k, _), fnd) -> Printf.sprintf "%s;n=%d" (show_kind_err k) (List.length fnd)
+let run_hparse t : string * string =
+  let policy = policy_of_int (next_int t) in
+  let tail = if next_int t = 1 then TErr else TEOF in
+  let _chunk = next_int t in
+  let data = next_hex t in
+  let r = parse_fields field_table uni_lower mime_dec policy { sdata = data; stail = tail } [] in
+  (show_parse (List.length data) r, "-")
+let run_hapi t : string * string =
+  let policy = policy_of_int (next_int t) in
+  let k = next_int t in
+  let fs = List.fold_left (fun acc _ -> let n = next_hex t in let v = next_hex t in m_add field_table uni_lower n v acc) [] (List.init k (fun i -> i)) in
+  let text = serialize fs in
+  let r = parse_fields field_table uni_lower mime_dec policy { sdata = text; stail = TEOF } [] in
+  let m = match r with
+    | Ok ((fs2, _), fnd) -> Printf.sprintf "nil;n=%d;f=%s" (List.length fnd) (hex (m_write fs2))
+    | Err ((k, _), fnd) -> Printf.sprintf "%s;n=%d" (show_kind_err k) (List.length fnd) in
+  (m, "-")
+
 (* ---------- main ---------- *)
 let run_line (line : string) : string * string =
   let t = { rest = List.filter (fun s -> s <> "") (String.split_on_char ' ' line) } in
@@ -169,6 +198,8 @@ let run_line (line : string) : string * string =
   | "fields" -> run_fields t
   | "spill" -> run_spill t
   | "validate" -> run_validate t
+  | "hparse" -> run_hparse t
+  | "hapi" -> run_hapi t
   | d -> failwith ("unknown domain " ^ d)
 
 let () =
